@@ -41,6 +41,7 @@ double sc_time_stamp() { return 0; }
 static uint64_t g_cases = 0, g_transitions = 0, g_nontrivialSeq = 0, g_clocks = 0;
 static std::map<std::string, uint64_t> g_classes;
 static std::set<uint64_t> g_distinct;
+static uint64_t g_distinctSteps = 0;
 static std::vector<std::string> g_samples;
 static const char *g_failFile = nullptr;
 static void cls(const std::string &k) { g_classes[k]++; }
@@ -180,7 +181,7 @@ static void writeStats(bool ok) {
   FILE *f = fopen(out, "w");
   if (!f) return;
   vjson::Obj o;
-  o.num("cases", g_cases); o.num("transitions", g_transitions); o.num("clocks", g_clocks); o.num("nontrivial_sequences", g_nontrivialSeq); o.num("distinct", g_distinct.size());
+  o.num("cases", g_cases); o.num("transitions", g_transitions); o.num("clocks", g_clocks); o.num("nontrivial_sequences", g_nontrivialSeq); o.num("distinct", g_distinctSteps);
   vjson::Obj c; for (auto &kv : g_classes) c.num(kv.first, kv.second); o.raw("classes", c.done());
   vjson::Arr s; for (auto &x : g_samples) s.raw(x); o.raw("samples", s.done());
   o.boolean("ok", ok);
@@ -196,11 +197,12 @@ int main(int argc, char **argv) {
   if (mode == "grid" || mode == "state") {
     Models m;
     auto sweep = [&](const GridCase &c, int only, int *failByte) -> std::string {
+      bool newState = g_distinct.insert(hashMix(hashMix(hashMix(hashMix(c.pc, c.a), c.b), c.o), c.dd * 2 + c.rst)).second;
       for (int inst = 0; inst < 256; inst++) {
         if (only >= 0 && inst != only) continue;
         std::string d = m.transition(c, (unsigned)inst);
         if (!d.empty()) { *failByte = inst; return d; }
-        g_distinct.insert(hashMix(hashMix(hashMix(hashMix(hashMix(inst, c.pc), c.a), c.b), c.o), c.dd * 2 + c.rst));
+        if (newState) g_distinctSteps++;
         cls(std::string("opcode:") + refisa::opcodeName(inst >> 4));
         if (c.rst) cls("with-reset");
         if ((c.o & 15) != 0) cls("oreg-low-nibble-nonzero");
@@ -240,7 +242,7 @@ int main(int argc, char **argv) {
       if (g_samples.size() < 4 && g_cases % 50 == 7) g_samples.push_back(isagen::toJson(q));
       uint64_t steps = 0;
       std::string d = f.run(file, q.input, 400, &steps);
-      if (steps >= 8) { g_nontrivialSeq++; uint64_t h = 0; for (auto c : bytes) h = hashMix(h, c); g_distinct.insert(h); }
+      if (steps >= 8) { g_nontrivialSeq++; uint64_t h = 0; for (auto c : bytes) h = hashMix(h, c); if (g_distinct.insert(h).second) g_distinctSteps++; }
       if (!d.empty()) { vjson::Obj o; o.str("kind", "image"); o.hex("file", file); o.hex("input", q.input); o.str("diff", d); o.num("max_steps", 400); recordFail(o.done()); }
       RC_ASSERT(d.empty());
     });
@@ -252,7 +254,7 @@ int main(int argc, char **argv) {
     uint64_t maxSteps = argc >= 5 ? strtoull(argv[4], nullptr, 10) : 50000000ull;
     uint64_t steps = 0; g_cases++;
     std::string d = f.run(file, input, maxSteps, &steps);
-    if (steps >= 8) { g_nontrivialSeq++; uint64_t h = 0; for (auto c : file) h = hashMix(h, (unsigned char)c); g_distinct.insert(h); }
+    if (steps >= 8) { g_nontrivialSeq++; uint64_t h = 0; for (auto c : file) h = hashMix(h, (unsigned char)c); if (g_distinct.insert(h).second) g_distinctSteps++; }
     if (!d.empty()) { vjson::Obj o; o.str("kind", "image"); o.hex("file", file.size() < 20000 ? file : std::string()); o.str("path", argv[2]); o.hex("input", input); o.str("diff", d); recordFail(o.done()); ok = false; }
     f.s.final(); f.v.final();
   } else { fprintf(stderr, "bad mode\n"); return 2; }
